@@ -19,6 +19,8 @@ the current revision id under the same file-name constants.
 (e) plan generation, two structural necessary conditions only: generate_simple_plan replays the whole slice of the
 topological order from start to stop (no filtering), and generate_transpose_plan recomputes an already processed child
 when another of its parents is rewritten.
+(f) rebase_todo reports each plan entry on its own has_revision() test; the test mentions nothing assigned inside the
+loop.
 Does not decide: plan contents and ordering beyond (e) (graph values) — not applicable to static analysis.
 """
 
@@ -120,8 +122,23 @@ def run(ctx):
         ctx.check("state-file-names", f"{RB}:RebaseState1", len(na) == 1 and na == nb, f"the {what} is written to and read from the same file {sorted(na)}", construct=f"write {sorted(na)} / read {sorted(nb)}", message=f"the {what} is written to {sorted(na)} but read from {sorted(nb)}")
     ctx.check("state-file-names", f"{RB}:RebaseState1", any(call_attr(c) == "marshall_rebase_plan" for c in calls_in(wp)) and any(call_attr(c) == "unmarshall_rebase_plan" for c in calls_in(rp)), "write_plan marshals and read_plan unmarshals")
 
+    # ---- (f) rebase_todo decides every plan entry on its own -----------------------------------------------------------
+    # "exactly the revisions whose replacement is absent": the yield is guarded by a per-entry has_revision() test that
+    # mentions nothing assigned inside the loop (no flag carried over from earlier entries — replay order is not plan order)
+    ft = repo.func(RB, "rebase_todo")
+    wt_ = f"{RB}:rebase_todo"
+    loops_ = [l_ for l_ in walk_own(ft) if isinstance(l_, ast.For) and any(isinstance(y, ast.Yield) for y in ast.walk(l_))]
+    ctx.require(len(loops_) == 1, f"{wt_}: the loop over the plan was not found")
+    lp = loops_[0]
+    targets = {n.id for n in ast.walk(lp.target) if isinstance(n, ast.Name)}
+    carried = {n.id for st in ast.walk(lp) if isinstance(st, (ast.Assign, ast.AugAssign, ast.AnnAssign)) for t_ in (st.targets if isinstance(st, ast.Assign) else [st.target]) for n in ast.walk(t_) if isinstance(n, ast.Name)} - targets
+    guards = [i for i in ast.walk(lp) if isinstance(i, ast.If) and any(isinstance(y, ast.Yield) for s_ in i.body + i.orelse for y in ast.walk(s_))]
+    used = {n.id for g_ in guards for n in ast.walk(g_.test) if isinstance(n, ast.Name)}
+    asks = any(call_attr(c) == "has_revision" for g_ in guards for c in calls_in(g_.test))
+    ctx.check("todo-decided-per-entry", wt_, bool(guards) and asks and not (used & carried), "each plan entry is reported as pending on its own has_revision() test", construct=str(sorted(used & carried)), message=f"rebase_todo decides an entry with state carried over from earlier entries ({sorted(used & carried)}) or without asking has_revision: after an interrupted replay of a non-linear plan, revisions that were already replayed are listed as still to do (replay order is not plan order)")
 
 MUTANTS = [
+    Mutant("later plan entries assumed pending after the first miss", RB, "        if not repository.has_revision(parent_ids[0]):\n            yield revid\n", "        if pending or not repository.has_revision(parent_ids[0]):\n            pending = True\n            yield revid\n", expect="todo-decided-per-entry"),
     Mutant("plan keeps only descendants of the start revision", RB, "    todo = order[order.index(start_revid) : order.index(stop_revid) + 1]\n", "    todo = [r for r in order[order.index(start_revid) : order.index(stop_revid) + 1] if r == start_revid or parent_map[r]]\n", expect="plan-covers-range"),
     Mutant("processed children skipped in the transpose plan", RB, "                if c in renames:\n                    continue\n", "                if c in renames or c in processed:\n                    continue\n", expect="transpose-recomputes-per-parent"),
     Mutant("neutral: slice bounds through temporaries", RB, "    todo = order[order.index(start_revid) : order.index(stop_revid) + 1]\n", "    first = order.index(start_revid)\n    last = order.index(stop_revid)\n    todo = order[first : last + 1]\n", neutral=True),
